@@ -101,6 +101,21 @@ func draw(rt *rapid.T) Case {
 		}
 		c.Rounds = append(c.Rounds, rd)
 	}
+	// a fifth of the cases: two graceful restarts in a row, with unanswered one-way requests on
+	// the connection of the first (its drain is pending when the second notification arrives)
+	if rapid.IntRange(0, 4).Draw(rt, "twoNotifications") == 0 {
+		if len(c.Rounds) < 2 {
+			c.Rounds = append(c.Rounds, Round{GapMs: rapid.SampledFrom([]int{0, 10, 100, 500}).Draw(rt, "gap2"), NCalls: rapid.IntRange(1, 3).Draw(rt, "ncalls2")})
+		}
+		k := rapid.IntRange(0, len(c.Rounds)-2).Draw(rt, "firstNotification")
+		c.Rounds[k].Close = rapid.SampledFrom([]string{"push", "push-linger"}).Draw(rt, "close1")
+		c.Rounds[k].DownCalls = 0
+		if c.Rounds[k].OneWay == 0 {
+			c.Rounds[k].OneWay = rapid.IntRange(1, 3).Draw(rt, "oneWay1")
+		}
+		c.Rounds[k+1].Close = rapid.SampledFrom([]string{"push", "push-linger"}).Draw(rt, "close2")
+		c.Rounds[k+1].DownCalls = 0
+	}
 	return c
 }
 
@@ -499,7 +514,15 @@ func TestC11(t *testing.T) {
 	stat.Check(t, st, "reconnect", stat.N(14, 600), draw, func(c Case) *stat.Failure {
 		nt := false
 		var cls []string
+		drainPending := false
 		for _, r := range c.Rounds {
+			notif := r.Close == "push" || r.Close == "push-linger"
+			if notif && drainPending {
+				cls = append(cls, "notification-while-an-earlier-connection-is-still-draining")
+			}
+			if notif && r.OneWay > 0 {
+				drainPending = true
+			}
 			cls = append(cls, "close-"+r.Close, fmt.Sprintf("gap-%d", r.GapMs))
 			if r.GapMs < 1000 {
 				nt = true
